@@ -441,25 +441,13 @@ func c13Batch(c *Check, tier string) int {
 	n := kit.EnvInt("VERIF_QUICK_RUNS", 6000)
 	limit := 3 * time.Minute
 	if tier == "thorough" {
-		n = 200000
+		n = 1 << 30
 		limit = 20 * time.Minute
 		if s := kit.EnvInt("VERIF_THOROUGH_SECONDS", 0); s > 0 {
 			limit = time.Duration(s) * time.Second
 		}
 	}
 	budget := kit.NewBudget(limit)
-	byID := map[string]*req.Session{}
-	var sessions []*req.Session
-	for i := 0; i < n; i++ {
-		s := c13Gen(kit.NewRng(kit.Mix(seed, "C13", i)), fmt.Sprint("s", i))
-		sessions = append(sessions, s)
-		byID[s.ID] = s
-	}
-	outs, err := c13Exec(sessions, budget.Exceeded)
-	if err != nil {
-		fmt.Fprintln(os.Stderr, "harness:", err)
-		return 2
-	}
 	stats := kit.Counter{}
 	prints := map[string]bool{}
 	var steps int64
@@ -474,58 +462,80 @@ func c13Batch(c *Check, tier string) int {
 	harness := 0
 	evals := 0
 	var samples []interface{}
-	for oi := range outs {
-		o := &outs[oi]
-		s := byID[o.ID]
-		if o.Err != "" {
-			harness++
-			fmt.Fprintf(os.Stderr, "harness: session %s: %s\n", o.ID, o.Err)
-			continue
+	var fpLines []string
+	total := 0
+	// rounds of sessions (memory stays bounded in the time-budgeted tier)
+	const round = 50000
+	for base := 0; base < n && !budget.Exceeded(); base += round {
+		byID := map[string]*req.Session{}
+		var sessions []*req.Session
+		for i := base; i < base+round && i < n; i++ {
+			s := c13Gen(kit.NewRng(kit.Mix(seed, "C13", i)), fmt.Sprint("s", i))
+			sessions = append(sessions, s)
+			byID[s.ID] = s
 		}
-		if o.Fatal != "" {
-			k := "fatal:" + o.Fatal + ":" + o.FatalAt
-			if h, ok := viol[k]; ok {
-				h.n++
-			} else {
-				viol[k] = &hit{detail: "the worker died: " + o.Fatal + " at " + o.FatalAt + " — " + o.Stderr, sess: s, upto: len(s.Requests), n: 1}
-			}
-			continue
+		outs, err := c13Exec(sessions, budget.Exceeded)
+		if err != nil {
+			fmt.Fprintln(os.Stderr, "harness:", err)
+			return 2
 		}
-		prints[o.LogHash] = true
-		for i := range o.Outcomes {
-			ro := &o.Outcomes[i]
-			rq := &s.Requests[i]
-			evals++
-			steps += ro.Steps
-			stats.Inc("request:" + rq.Kind)
-			stats.Inc("damage:" + strings.SplitN(rq.Damage, ":", 2)[0])
-			stats.Inc("outcome:" + ro.Kind)
-			if ro.Fired {
-				stats.Inc("fault-fired:reader-" + rq.ReadKind)
-			}
-			surface := rq.Kind
-			k, d := c13Key(surface, ro)
-			if k == "" {
+		total += len(outs)
+		for oi := range outs {
+			fpLines = append(fpLines, outs[oi].ID+"|"+outs[oi].LogHash)
+		}
+		for oi := range outs {
+			o := &outs[oi]
+			s := byID[o.ID]
+			if o.Err != "" {
+				harness++
+				fmt.Fprintf(os.Stderr, "harness: session %s: %s\n", o.ID, o.Err)
 				continue
 			}
-			d = fmt.Sprintf("request %d (%s, damage %s, path %q, query %q, doc %s): %s", i, rq.Kind, rq.Damage, rq.Path, rq.Query, trunc(rq.Doc, 200), d)
-			if h, ok := viol[k]; ok {
-				h.n++
-				if i+1 < h.upto {
-					h.detail, h.sess, h.upto, h.hash = d, s, i+1, o.LogHash
+			if o.Fatal != "" {
+				k := "fatal:" + o.Fatal + ":" + o.FatalAt
+				if h, ok := viol[k]; ok {
+					h.n++
+				} else {
+					viol[k] = &hit{detail: "the worker died: " + o.Fatal + " at " + o.FatalAt + " — " + o.Stderr, sess: s, upto: len(s.Requests), n: 1}
 				}
-			} else {
-				viol[k] = &hit{detail: d, sess: s, upto: i + 1, n: 1, hash: o.LogHash}
+				continue
 			}
-		}
-		if len(samples) < 2 && len(s.Requests) > 0 {
-			var rs []string
-			for i, rq := range s.Requests {
-				if i < 6 {
-					rs = append(rs, fmt.Sprintf("%s [%s] path=%q query=%q doc=%s -> %s", rq.Kind, rq.Damage, rq.Path, rq.Query, trunc(rq.Doc, 80), o.Outcomes[i].Kind))
+			prints[o.LogHash] = true
+			for i := range o.Outcomes {
+				ro := &o.Outcomes[i]
+				rq := &s.Requests[i]
+				evals++
+				steps += ro.Steps
+				stats.Inc("request:" + rq.Kind)
+				stats.Inc("damage:" + strings.SplitN(rq.Damage, ":", 2)[0])
+				stats.Inc("outcome:" + ro.Kind)
+				if ro.Fired {
+					stats.Inc("fault-fired:reader-" + rq.ReadKind)
+				}
+				surface := rq.Kind
+				k, d := c13Key(surface, ro)
+				if k == "" {
+					continue
+				}
+				d = fmt.Sprintf("request %d (%s, damage %s, path %q, query %q, doc %s): %s", i, rq.Kind, rq.Damage, rq.Path, rq.Query, trunc(rq.Doc, 200), d)
+				if h, ok := viol[k]; ok {
+					h.n++
+					if i+1 < h.upto {
+						h.detail, h.sess, h.upto, h.hash = d, s, i+1, o.LogHash
+					}
+				} else {
+					viol[k] = &hit{detail: d, sess: s, upto: i + 1, n: 1, hash: o.LogHash}
 				}
 			}
-			samples = append(samples, map[string]interface{}{"store": s.Store, "requests": len(s.Requests), "first_requests": rs})
+			if len(samples) < 2 && len(s.Requests) > 0 {
+				var rs []string
+				for i, rq := range s.Requests {
+					if i < 6 {
+						rs = append(rs, fmt.Sprintf("%s [%s] path=%q query=%q doc=%s -> %s", rq.Kind, rq.Damage, rq.Path, rq.Query, trunc(rq.Doc, 80), o.Outcomes[i].Kind))
+					}
+				}
+				samples = append(samples, map[string]interface{}{"store": s.Store, "requests": len(s.Requests), "first_requests": rs})
+			}
 		}
 	}
 	var keys []string
@@ -555,10 +565,6 @@ func c13Batch(c *Check, tier string) int {
 		fmt.Printf("VIOLATION property=C13 replay=%s\n  key=%s (seen %d times)\n  %s\n", path, k, h.n, trunc(h.detail, 900))
 		exit = 1
 	}
-	var fpLines []string
-	for oi := range outs {
-		fpLines = append(fpLines, outs[oi].ID+"|"+outs[oi].LogHash)
-	}
 	sort.Strings(fpLines)
 	batch := kit.NewLog(0)
 	for _, l := range fpLines {
@@ -572,7 +578,7 @@ func c13Batch(c *Check, tier string) int {
 		"rule":                "one session = a generated schema (half of them two-module schemas with every leaf type), a live store (map-/struct-backed Reflect and Node, control) pre-loaded with a conforming tree, and 5-30 requests, each first generated valid (edit with JSON or XML body at a Found path with upsert/insert/update; Find; read with query parameters from a catalogue; where= XPath from a catalogue; SetValue with a JSON-decoded Go value) and then, with probability 30/60/100% per session, passed through the fault channel: truncate, flip a byte (random or structural), drop/duplicate/swap a token, insert a structural character, reader error or EOF at byte k, (n,EOF) reads with seeded chunk sizes, shape swap at a schema position (object/array/scalar/null where another kind is declared, in JSON and XML), key on a non-list, step below a leaf, odd relative paths. Oracles per request: no panic, returns within the step budget, worker survives; a body cut strictly inside is rejected; after a rejected edit the store exports and every pre-existing leaf is unchanged or holds a value the request carries, and nothing the request does not address is removed; reads never change the store. evaluations counts requests; distinct_nontrivial counts distinct session logs (stream calls + per-request outcome)",
 		"samples":             samples,
 		"sim_steps":           steps,
-		"runs_per_hour":       int(float64(len(outs)) / (wall + 1e-9) * 3600),
+		"runs_per_hour":       int(float64(total) / (wall + 1e-9) * 3600),
 		"counters":            stats,
 		"known_findings_seen": knownSeen,
 		"components": map[string]string{
@@ -589,7 +595,7 @@ func c13Batch(c *Check, tier string) int {
 		fmt.Fprintln(os.Stderr, "harness:", err)
 		return 2
 	}
-	fmt.Printf("C13: sessions=%d requests=%d distinct=%d violations=%d known=%d wall=%.1fs\n  counters: %s\n", len(outs), evals, len(prints), nviol, len(knownSeen), wall, stats.String())
+	fmt.Printf("C13: sessions=%d requests=%d distinct=%d violations=%d known=%d wall=%.1fs\n  counters: %s\n", total, evals, len(prints), nviol, len(knownSeen), wall, stats.String())
 	if harness > 0 || len(prints) < 2 {
 		return 2
 	}
